@@ -16,12 +16,12 @@ ASSUMPTIONS = ["allocation succeeds (C08)"]
 TRUSTED = ["Spec/Rfc8259.lean for the value of the unmodified document", "the generator's notion of 'admissible position' for each extension kind (tools/props/c16.py)"]
 MANIFEST = dict(
     text="Specification: Spec/Rfc8259X.lean - an RFC 8259 document in which comments (in every gap), trailing commas, single-quoted strings and member "
-         "names, and literals with upper-case letters may occur any number of times at every position where they are syntactically possible (`XText`), "
+         "names, raw control characters inside strings and member names, and literals with upper-case letters may occur any number of times at every position where they are syntactically possible (`XText`), "
          "with `erase` = the original RFC 8259 text. Theorems (Props/C16.lean) on the byte-driven tokener model, by two inductions over that type, for "
          "every document, every depth limit, no bound on size: `default_accepts_extensions` / `default_same_value_as_original` - default mode succeeds "
          "with exactly the value of the original document, end position = length; `strict_rejects_extensions` - strict mode ends with an error status "
          "(never success / continue), no value, no undefined step, as soon as at least one extension occurs anywhere; `plain_is_rfc8259`. The forms that "
-         "change a single token - raw control character in a string or name, superfluous leading zero, trailing bytes after the value (with and without "
+         "change a single token - superfluous leading zero, trailing bytes after the value (with and without "
          "ALLOW_TRAILING_CHARS: accepted with the end of the value reported) - are per-state theorems for every tokener state of that shape and every "
          "enclosing stack (`strict_control_in_string`, `strict_leading_zero_rejected`, `strict_trailing_rejected`, `trailing_accepted`, ...); trailing bytes are in addition "
          "proved on whole documents (`trailing_bytes`: any RFC 8259 text followed by a non-space byte: STRICT fails with 'unexpected character', default and "
